@@ -11,6 +11,30 @@ open InvProxy InvProxy.Bridge
 theorem hex_roundtrip (bs : Bytes) : hexDec (hexEnc bs) = some bs := by
   exact hexDec_hexEnc bs
 
+/-- the wire form is injective: two different byte strings are never written as the same message -/
+theorem hex_injective (a b : Bytes) (h : hexEnc a = hexEnc b) : a = b := by
+  have ha := hexDec_hexEnc a
+  rw [h, hexDec_hexEnc b] at ha
+  exact (Option.some.inj ha).symm
+
+/-- what `Write` puts on the wire: only the digits 0-9 and a-f (lower case, as `hex.EncodeToString`),
+    two per byte — for every byte string -/
+theorem hex_alphabet (bs : Bytes) :
+    (∀ c ∈ hexEnc bs, isLowerHex c = true) ∧ (hexEnc bs).length = 2 * bs.length :=
+  ⟨hexEnc_lower bs, hexEnc_length bs⟩
+
+/-- segmentation is immaterial on the wire too: the concatenated payloads of two writes are the
+    payload of the single write of the concatenation -/
+theorem hex_append (a b : Bytes) : hexEnc (a ++ b) = hexEnc a ++ hexEnc b := hexEnc_append a b
+
+/-- a text message whose payload has odd length is an error for the reader (never silently truncated) -/
+theorem odd_payload_rejected (bs : Bytes) (c : UInt8) : hexDec (hexEnc bs ++ [c]) = none := by
+  induction bs with
+  | nil => rfl
+  | cons b t ih =>
+    simp only [hexEnc, List.cons_append, hexDec, ih]
+    split <;> simp_all
+
 /-- upper-case hex digits are accepted as well (what `encoding/hex` does) -/
 theorem unhex_upper : unhex 65 = some 10 ∧ unhex 70 = some 15 ∧ unhex 71 = none ∧ unhex 103 = none := by decide
 
